@@ -193,6 +193,8 @@ impl Engine for HrEngine {
                     l.push("dump".into());
                     for k in 0..3 { if rng.chance(1, 2) { l.push(format!("rw.poll w{k}")); } if rng.chance(1, 3) { l.push(format!("rw.poll v{k}")); } }
                     if rng.chance(1, 2) { let id = *rng.pick(&IDS[..4]); l.push(format!("global S0 {}", hexs(id))); }
+                    // a watcher created LATE (after reloads): it starts from the asset's current reload id, so its first poll is `false`
+                    if rng.chance(1, 3) { let k = rng.below(3); let id = IDS[k]; l.push(format!("rw.new late{k} S0 {}", hexs(id))); l.push(format!("rw.poll late{k}")); }
                 }
             }
             // ---------------------------------------------------------------- C05: event sent right before hot_reload
